@@ -22,7 +22,7 @@ def spec (op : String) (a b : Int) : String :=
   | "pow" => if b < 0 then "-" else if b > 200 ∧ (a > 1 ∨ a < -1) then "-" else optInt (ipow a b.toNat)
   | "div" => if b = 0 then "zerodiv" else "float:" ++ floatBits a b
   | "fdiv" => if b = 0 then "zerodiv" else optInt (a.fdiv b)
-  | "mod" => if b = 0 then "zerodiv" else "int:" ++ toString (a - b * (a.tdiv b))
+  | "mod" => if b = 0 then "zerodiv" else "-"   -- a relation, not a function: see `modrel`
   | "cmp" => if a < b then "int:-1" else if a = b then "int:0" else "int:1"
   | _ => "bad-op"
 
@@ -32,6 +32,13 @@ def handle (args : List String) : String × String :=
     match parseInt? a with
     | some a => (showR (neg a), optInt (-a))
     | none => ("bad-op", "bad-op")
+  | ["modrel", a, b, r] =>
+    -- the implementation's `a % b = r` judged by the property's relation (`remOk_iff`)
+    match parseInt? a, parseInt? b, parseInt? r with
+    | some a, some b, some r =>
+      let v := if b = 0 then "bad" else if remOk a b r then "ok" else "bad"
+      (v, v)
+    | _, _, _ => ("bad-op", "bad-op")
   | [op, a, b] =>
     match parseInt? a, (if b = "nil" then some (nilAs op) else parseInt? b) with
     | some a, some b =>
